@@ -1,0 +1,41 @@
+// SPDX-FileCopyrightText: 2026 The Pion community <https://pion.ly>
+// SPDX-License-Identifier: MIT
+
+//go:build verif
+
+package ice
+
+import (
+	"context"
+	"net"
+	"net/netip"
+
+	"github.com/pion/logging"
+)
+
+// This file exists only with the verif build tag. It lets an external
+// verification harness call the unexported RFC 4571 framing functions and
+// build an active TCP connection without widening the real API.
+
+// VerifReceiveMTU is the size of the read buffers used by the TCP readers.
+const VerifReceiveMTU = receiveMTU
+
+// VerifReadStreamingPacket calls readStreamingPacket.
+func VerifReadStreamingPacket(conn net.Conn, buf []byte) (int, error) {
+	return readStreamingPacket(conn, buf)
+}
+
+// VerifWriteStreamingPacket calls writeStreamingPacket.
+func VerifWriteStreamingPacket(conn net.Conn, buf []byte) (int, error) {
+	return writeStreamingPacket(conn, buf)
+}
+
+// VerifNewActiveTCPConn calls newActiveTCPConn.
+func VerifNewActiveTCPConn(
+	ctx context.Context,
+	localAddress string,
+	remoteAddress netip.AddrPort,
+	log logging.LeveledLogger,
+) net.PacketConn {
+	return newActiveTCPConn(ctx, localAddress, remoteAddress, log)
+}
